@@ -16,6 +16,8 @@ package pubsub
 
 import (
 	"encoding/json"
+	"math"
+
 	"github.com/emitter-io/emitter/internal/errors"
 	"github.com/emitter-io/emitter/internal/message"
 	"github.com/emitter-io/emitter/internal/network/mqtt"
@@ -81,6 +83,9 @@ func (s *Service) OnPublish(c service.Conn, packet *mqtt.Publish) *errors.Error 
 
 	// If a user have specified a TTL, use that value
 	if ttl, ok := channel.TTL(); ok && ttl > 0 {
+		if ttl > math.MaxUint32 {
+			ttl = math.MaxUint32 // Do not let a huge TTL wrap around (2^32 would become 0, i.e. not stored)
+		}
 		msg.TTL = uint32(ttl)
 	}
 
